@@ -724,6 +724,22 @@ def conformance_cases():
     add("AsType", "int64_to_float64_above_2p53", lambda: dx.from_pandas(big, npartitions=2, sort=False).astype({"d": "float64"}),
         {"d_gt": lambda x: x["d"] > 2**53, "d_eq": lambda x: x["d"] == 2**53})
     cases[-1]["sig"] = cases[-2]["sig"] = {"kind": "cross", "op": "astype_int64_to_float64_above_2p53"}
+    sens = pd.DataFrame({"x": [0.1, 0.5, 16777217.0, 1e-50, np.nan, 2.0], "n": [1, 2**32 + 1, 300, -1, 2**31, 7],
+                         "k": [1, 2, 3, 4, 5, 6]})
+    narrow_preds = {
+        "x_eq_f32_0.1": lambda x: x["x"] == np.float32(0.1), "x_eq_0": lambda x: x["x"] == 0, "x_eq_2p24": lambda x: x["x"] == 16777216.0,
+        "n_eq_1": lambda x: x["n"] == 1, "n_lt_0": lambda x: x["n"] < 0, "or": lambda x: (x["n"] == 1) | x["x"].isna(),
+        "k_gt": lambda x: x["k"] > 2,
+    }
+    add("AsType", "narrow_f32_i32", lambda: dx.from_pandas(sens, npartitions=2, sort=False).astype({"x": "float32", "n": "int32"}),
+        narrow_preds)
+    add("AsType", "narrow_i16", lambda: dx.from_pandas(sens, npartitions=2, sort=False).astype({"n": "int16"}),
+        {"n_eq_1": narrow_preds["n_eq_1"], "n_lt_0": narrow_preds["n_lt_0"], "n_eq_44": lambda x: x["n"] == 300})
+    add("AsType", "narrow_f16", lambda: dx.from_pandas(sens, npartitions=2, sort=False)[["x", "k"]].astype({"x": "float16"}),
+        {"x_eq_0": narrow_preds["x_eq_0"], "x_isinf": lambda x: x["x"] > 1e6, "x_eq_half": lambda x: x["x"] == 0.5})
+    add("AsType", "widen_k", lambda: dx.from_pandas(sens, npartitions=2, sort=False).astype({"k": "float64"}), {"k_gt": narrow_preds["k_gt"]})
+    add("AsType", "i32_to_f32", lambda: dx.from_pandas(sens.assign(k=sens.k + 2**24).astype({"k": "int32"}), npartitions=2, sort=False)
+        .astype({"k": "float32"}), {"k_eq": lambda x: x["k"] == 16777218.0, "k_gt": lambda x: x["k"] > 16777217})
     add("AsType", "c_Int64", lambda: dfl().astype({"c": "Int64"}), {"c_ne7": num_preds["c_ne7"], "c_isna": num_preds["c_isna"]})
     add("ResetIndex", "frame", lambda: dfl().reset_index(),
         {**num_preds, "index_gt": lambda x: x["index"] > 11, "index_and_a": lambda x: (x["index"] > 11) & (x["a"] > 0),
@@ -890,8 +906,67 @@ def fam_or_parent(ctx):
     return f
 
 
+NUMPY_DTYPES = ["bool", "int8", "int16", "int32", "int64", "uint8", "uint16", "uint32", "uint64", "float16", "float32", "float64"]
+
+
+def fam_castguard(ctx):
+    """T2: AsType._is_value_preserving (and np.can_cast 'safe' underneath) vs the model's castGuard / numpySafe table,
+    every ordered pair of numpy numeric dtypes, single-column and two-column frames, plus non-numpy targets."""
+    import dask_expr as dx
+    from dask_expr._expr import AsType
+
+    f = Family("AsType._is_value_preserving[all numpy numeric dtype pairs + extension targets]")
+    reqs, code, inputs, nontriv = [], [], [], []
+    frames = {}
+    for o in NUMPY_DTYPES:
+        pdf = pd.DataFrame({"v": np.array([0, 1, 1, 0], dtype=o), "w": np.array([1, 0, 1, 1], dtype="int16")})
+        frames[o] = dx.from_pandas(pdf, npartitions=2, sort=False)
+    for o in NUMPY_DTYPES:
+        for n in NUMPY_DTYPES:
+            x = frames[o].astype({"v": n})
+            e = x.expr
+            real = bool(e._is_value_preserving()) if isinstance(e, AsType) else (o == n)
+            safe = bool(np.can_cast(np.dtype(o), np.dtype(n), casting="safe"))
+            reqs.append(f"pred castguard from={o} to={n}")
+            code.append(f"guard={int(real)} safe={int(safe)}")
+            inputs.append({"from": o, "to": n})
+            nontriv.append(o != n)
+            # Series form
+            sx = frames[o]["v"].astype(n).expr
+            if isinstance(sx, AsType):
+                reqs.append(f"pred castguard from={o} to={n}")
+                code.append(f"guard={int(bool(sx._is_value_preserving()))} safe={int(safe)}")
+                inputs.append({"from": o, "to": n, "series": True})
+                nontriv.append(o != n)
+    # a frame is value preserving iff every column is: second column int16 -> n2 together with v: o -> n
+    for _ in range(60 if ctx.quick else 600):
+        o, n, n2 = ctx.rng.choice(NUMPY_DTYPES), ctx.rng.choice(NUMPY_DTYPES), ctx.rng.choice(NUMPY_DTYPES)
+        e = frames[o].astype({"v": n, "w": n2}).expr
+        if not isinstance(e, AsType):
+            continue
+        m = drive([f"pred castguard from={o} to={n}", f"pred castguard from=int16 to={n2}"])
+        want = all(x.startswith("guard=1") for x in m)
+        f.compare([{"from": o, "to": n, "w_to": n2}], [str(bool(e._is_value_preserving()))], [str(want)], [True])
+    # non-numpy targets are never value preserving (unless equal)
+    for o, n in [("int64", "Int64"), ("float64", "Float64"), ("int64", "str"), ("int64", "category"), ("float64", "Int64"),
+                 ("int32", "string[pyarrow]")]:
+        try:
+            e = frames[o].astype({"v": n}).expr
+        except Exception:  # noqa: BLE001
+            continue
+        reqs.append(f"pred castguard from={o} to={n}")
+        code.append(f"guard={int(bool(e._is_value_preserving()))} safe=?")
+        inputs.append({"from": o, "to": n})
+        nontriv.append(True)
+    model = drive(reqs)
+    f.compare(inputs, code, model, nontriv)
+    f.exhaustive = True
+    f.note = "12 x 12 numpy dtype pairs (frame and series form), random two-column casts, 6 extension/str/category targets"
+    return f
+
+
 def families(ctx):
-    return [fam_rewrite, fam_or_parent, fam_dnf, fam_pyarrow, fam_merge, fam_pushavail, fam_conformance]
+    return [fam_rewrite, fam_or_parent, fam_dnf, fam_pyarrow, fam_merge, fam_pushavail, fam_castguard, fam_conformance]
 
 
 # =========================================================================== end-to-end support / failing-input search
@@ -906,6 +981,10 @@ def _data():
             "b": [1, 2, 3, 1, 2, 3, 0, 4],
             "c": [5.0, None, 7.0, 8.0, None, 1.0, 2.0, 2.0],
             "d": [2, 1, 2, 8, 0, 1, 2, 3],
+            # values that change under a narrowing cast (float32: 0.1 inexact, 2**24+1 rounds, 1e-50 underflows;
+            # int32: 2**32+1 wraps to 1, 2**31 wraps negative)
+            "x": [0.1, 0.5, 16777217.0, 1e-50, None, 2.0, 0.1, 3.0],
+            "n": [1, 2**32 + 1, 300, -1, 2**31, 7, 2**32 + 1, 0],
         },
         index=pd.Index([10, 11, 12, 13, 14, 15, 16, 17]),
     )
@@ -930,6 +1009,10 @@ ATOMS = {
     "index>12": lambda x: x["index"] > 12,
     "index<b+11": lambda x: x["index"] < x["b"] + 11,
     "d>2^53": lambda x: x["d"] > 2**53,
+    "x==f32(0.1)": lambda x: x["x"] == np.float32(0.1),
+    "n==1": lambda x: x["n"] == 1,
+    "n<0": lambda x: x["n"] < 0,
+    "x==0": lambda x: x["x"] == 0,
 }
 ATOM_NAMES = list(ATOMS)
 IDX_ATOM = ATOM_NAMES.index("idx>12")
@@ -962,6 +1045,8 @@ def _ops():
         "rename": (lambda d: d.rename(columns={"a": "A", "c": "C"}).rename(columns={"A": "a", "C": "c"}), lambda p: p, False, False),
         "astype": (lambda d: d.astype({"b": "float64"}), lambda p: p.astype({"b": "float64"}), False, False),
         "astype_int": (lambda d: d.fillna(0).astype("int64"), lambda p: p.fillna(0).astype("int64"), False, False),
+        "astype_narrow": (lambda d: d.astype({"x": "float32", "n": "int32"}), lambda p: p.astype({"x": "float32", "n": "int32"}),
+                          False, False),
         "astype_big": (lambda d: d.assign(d=d["d"] + (2**53 - 1)).astype({"d": "float64"}),
                        lambda p: p.assign(d=p["d"] + (2**53 - 1)).astype({"d": "float64"}), False, False),
         "astype_Int64": (lambda d: d.astype({"c": "Int64"}), lambda p: p.astype({"c": "Int64"}), False, False),
@@ -1249,7 +1334,11 @@ CORPUS = [
     {"kind": "operand", "position": "concat_first", "tree": ["or", ["a", 5], ["a", 5]], "how": "inner"},
     {"kind": "cross", "op": "reset_index", "tree": ["and", ["a", 12], ["a", 9]], "shared": "none"},   # D29: former index & a column
     {"kind": "cross", "op": "series_reset_index", "tree": ["and", ["a", 12], ["a", 9]], "shared": "none"},   # same on Series.reset_index()
-    {"kind": "cross", "op": "astype_big", "tree": ["a", 14], "shared": "none"},   # int64 -> float64 above 2**53 (numpy "safe")
+    {"kind": "cross", "op": "astype_big", "tree": ["a", 14], "shared": "none"},
+    # narrowing casts must not be treated as value preserving (seeded mutant C03-m2)
+    {"kind": "cross", "op": "astype_narrow", "tree": ["a", 16], "shared": "none"},                              # n == 1 after int32 wrap
+    {"kind": "cross", "op": "astype_narrow", "tree": ["or", ["a", 15], ["a", 17]], "shared": "none"},           # x == f32(0.1) | n < 0
+    {"kind": "cross", "op": "astype_narrow", "tree": ["and", ["a", 18], ["not", ["a", 6]]], "shared": "then_project"},   # int64 -> float64 above 2**53 (numpy "safe")
     # x = df.shuffle(disk); x[pred].index : Index(shuffle A) masked positionally by a predicate over shuffle B
     {"kind": "cross", "op": "shuffle_disk", "tree": ["a", 4], "shared": "then_index", "repeat": 40},
 ]
